@@ -292,6 +292,10 @@ func (g *Gen) recvCase(ok [rcN]bool, module bool, usedPool *[][2]uint64) {
 			}
 		}
 		amt := bigPool(g)
+		if g.forceVariant >= 0 && amt.Sign() == 0 {
+			// the deterministic sweep fails exactly ONE condition per case: a zero amount is itself a failing mint
+			amt = big.NewInt(17)
+		}
 		if !ok[rcMint] {
 			if g.pickv(2) == 0 {
 				amt = big.NewInt(0)
@@ -365,6 +369,9 @@ func (g *Gen) recvCase(ok [rcN]bool, module bool, usedPool *[][2]uint64) {
 	}
 	kv := g.opReceive(from, msg, o)
 	kv.set("faults", faults)
+	if o.mutation != "" {
+		kv.set("#mut", o.mutation)
+	}
 	out := g.tx("ReceiveMessage", kv)
 	if strings.HasPrefix(out, "out=ok") {
 		*usedPool = append(*usedPool, [2]uint64{uint64(src), nonce})
